@@ -95,7 +95,7 @@ BEGIN {
   printf "first fmt=%s idx=%s\n", 1 / 3, (1 / 3) in arr
   observe("B0")
   for (i_ = 1; i_ <= length(acts); i_++) { c_ = substr(acts, i_, 1); if (c_ == "/") break; act(c_) }
-  if (endm == "exit-in-begin") exit 3
+  if (endm == "exit-in-begin" || endm ~ /^exit3-then/) exit 3
   if (endm ~ /begin$/) deep(3)
   observe("B1")
 }
@@ -106,12 +106,15 @@ $1 == "x,y", $1 == "q" { print "in-range-2", NR }
   seen_slash = 0
   for (i_ = 1; i_ <= length(acts); i_++) { c_ = substr(acts, i_, 1); if (c_ == "/") { seen_slash = 1; continue }; if (seen_slash) act(c_) }
   print "rec", NR, NF, $1
-  if (endm == "exit-in-rule" && NR == 2) exit 7
+  if ((endm == "exit-in-rule" || endm ~ /^exit7-then/) && NR == 2) exit 7
   if (endm !~ /begin$/ && endm != "" && NR == 2) deep(2)
 }
 END {
   observe("E")
   if (endm == "exit-in-end") exit 9
+  # an exit status is already set (exit 7 in a rule, exit 3 in BEGIN) and the run then fails or is cancelled in END
+  if (endm ~ /then-end-error$/) end_x_ = 1 / (d_zero + 0)
+  if (endm ~ /then-end-cancel$/) { cancel(); for (end_k_ = 0; end_k_ < 100000; end_k_++) spin++ }
 }
 `
 
@@ -139,7 +142,8 @@ type Case struct {
 	ResetVars bool  `json:"reset_vars"`
 }
 
-var endings = []string{"", "", "", "exit-in-begin", "exit-in-rule", "exit-in-end", "error-in-function", "error-in-forin", "cancel-in-function", "regex-error", "nf-error", "error-in-function-begin", "cancel-in-function-begin"}
+var endings = []string{"", "", "", "exit-in-begin", "exit-in-rule", "exit-in-end", "error-in-function", "error-in-forin", "cancel-in-function", "regex-error", "nf-error", "error-in-function-begin", "cancel-in-function-begin",
+	"exit7-then-end-error", "exit7-then-end-cancel", "exit3-then-end-error"}
 
 func genRun(t *rapid.T, probe bool) Run {
 	letters := "affFoRPcmuOwWgGlMvdnzNSriItppx//DD"
